@@ -101,6 +101,13 @@ def gen(item, rng, tier):
         # unique, attributable write values
         val = ((i + 1) * 0x0101010101010101 ^ rng.getrandbits(64)) & ((1 << (8 * size)) - 1)
         ops.append({'op': rng.choice(['r', 'w', 'w']), 'path': path, 'addr': addr, 'size': size, 'value': val})
+        if path == 'hub' and rng.random() < 0.12:
+            # the hub's third entry point: set_bits(descriptor, size, lowest bit, width, value) - what a table walk uses to set an Access flag in a
+            # descriptor.  A declared-unimplemented hook on this tree; whatever it becomes, it is an access like any other (same bytes, same bounds)
+            ops[-1].update(op='setbits', size=rng.choice([4, 4, 8, 2, 1]), ind=rng.choice([4, 10, 18, 28, 0, 7]), amount=rng.choice([1, 1, 2]), value=rng.choice([1, 1, 0, 3]))
+            ops[-1]['ind'] %= 8 * ops[-1]['size']
+            ops[-1]['amount'] = min(ops[-1]['amount'], 8 * ops[-1]['size'] - ops[-1]['ind'])
+            ops[-1]['value'] &= (1 << ops[-1]['amount']) - 1
         if path == 'hub' and rng.random() < 0.3:
             ops[-1]['ns'] = 1          # the Non-secure attribute of the descriptor is not part of the address
         if path in ('mem_a', 'mem_u') or (path == 'insn' and size in (2, 4)):
@@ -288,6 +295,38 @@ def run(case):
                 break
             ticks += op['n']
             op = dict(op, op='r')
+        if op['op'] == 'setbits':
+            desc = AddressDescriptor()
+            desc.paddress.physicaladdress = addr
+            pc = position_class(model, addr, size)
+            try:
+                arm.mem.set_bits(desc, size, op['ind'], op['amount'], op['value'])
+            except NotImplementedError:
+                count('nie.hub.set_bits')
+                if not check_all(op, idx, -1):
+                    break
+                continue
+            except Exception as e:
+                name, site = M.exc_site(e)
+                viol.append({'oracle': 'hub.model', 'site': site, 'cls': 'host_error:' + name, 'tick': idx, 'detail': '%r on set_bits size %d at %#x (%s)' % (e, size, addr, pc)})
+                break
+            ticks += 1
+            cover.add('%s|%d|%s|setbits|hub' % (case['style'], size, pc))
+            count('fault.edge-access' if pc in ('straddle-end', 'hole', 'before-begin', 'above-4G-hole') else 'probe.plain-access')
+            pi = model.find(addr)
+            if pi is not None:
+                b0, e0, mb = model.devs[pi]
+                off = addr - b0
+                if off + size <= len(mb):
+                    item = int.from_bytes(mb[off:off + size], 'little')
+                    msk = ((1 << op['amount']) - 1) << op['ind']
+                    item = (item & ~msk) | (op['value'] << op['ind'] & msk)
+                    mb[off:off + size] = item.to_bytes(size, 'little')
+                elif off < len(mb):
+                    mb[off:len(mb)] = rams[pi].memory_array[off:len(mb)]          # weak rule past the end: the in-device tail may be old or new
+            if not check_all(op, idx, pi if pi is not None else -1):
+                break
+            continue
         pc = position_class(model, addr, size)
         cover.add('%s|%d|%s|%s|%s' % (case['style'], size, pc, op['op'], path))
         count('probe.pos-' + pc)
